@@ -228,6 +228,16 @@ def _preimport():
             pass
 
 
+def _shapes(c, tier, prop):
+    """a contract may offer a property-specific (usually lighter) shape list: shapes(tier, prop)"""
+    import inspect
+    try:
+        n = len(inspect.signature(c.shapes).parameters)
+    except (TypeError, ValueError):
+        n = 1
+    return c.shapes(tier, prop) if n >= 2 else c.shapes(tier)
+
+
 def check_property(prop, tier="quick", seed=0, only=None, verbose=False, record_baseline=False):
     t_start = time.time()
     reg = C.load_all()
@@ -237,15 +247,16 @@ def check_property(prop, tier="quick", seed=0, only=None, verbose=False, record_
         print("no contract serves", prop)
         return 3
     jobs = []
+    shapes_of = {c.cid: _shapes(c, tier, prop) for c in cts}
     for c in cts:
-        for p in c.shapes(tier):
+        for p in shapes_of[c.cid]:
             jobs.append(dict(cid=c.cid, params=p, tier=tier, seed=seed, prop=prop))
     # sampled native pass (plain CPython numbers, unpatched code): catches what the exact-real
     # proxies cannot see (float rounding, operations outside the proxy model)
     nsample = int(os.environ.get("VERIF_SAMPLES", "120" if tier == "quick" else "1500"))
     for c in cts:
         if c.mode in ("B", "U") and not c.budget.get("no_sampling"):
-            for p in c.shapes(tier):
+            for p in shapes_of[c.cid]:
                 jobs.append(dict(cid=c.cid, params=p, tier=tier, seed=seed, prop=prop, sample=nsample))
     nproc = int(os.environ.get("VERIF_NPROC", "16"))
     hard = 600 if tier == "quick" else 3600
